@@ -672,6 +672,7 @@ func c09Scenes(c *Ctx) {
 				if t.cc.C.IsObservable() {
 					ents = append(ents, fmt.Sprintf(`{"aid":%d,"iid":%d,"ev":true}`, acc.ID, t.cc.C.ID))
 					descr = append(descr, t.cc.Desc+":ev")
+					t.ev = "true" // the later entry of the same request has the last word
 					break
 				}
 			}
